@@ -18,7 +18,7 @@ Section Crypto.
      Err 2 = the backend rejects *)
   Definition verify_signed_data (pk : public) (dnskey_alg : N) (s : sigf) (signature data : bytes)
     : outcome unit :=
-    if verify_checks_algorithm_match && negb (s_alg s =? dnskey_alg) then Err 1
+    if alg_mismatch (s_alg s) dnskey_alg then Err 1
     else if verify pk data signature then Ok tt else Err 2.
 
   Variable sk : secret.
@@ -35,7 +35,7 @@ Section Crypto.
     intros Hcorrect k o t c ttl rrset inc exp s scratch Hv Hu Hs seen Hseen.
     rewrite (validator_rebuilds_signer_input _ _ _ _ _ _ _ _ _ _ Hv Hu Hs seen Hseen).
     apply (sign_rrset_ok _ _ _ _ _ _ _ _ _ _ Hu) in Hs as (Hsig & _).
-    unfold verify_signed_data. rewrite Hsig. cbn [s_alg]. rewrite N.eqb_refl. cbn [negb].
+    unfold verify_signed_data, alg_mismatch. rewrite Hsig. cbn [s_alg]. rewrite N.eqb_refl. cbn [negb].
     rewrite andb_false_r. rewrite Hcorrect. reflexivity.
   Qed.
 
@@ -54,7 +54,7 @@ Section Crypto.
     intros Hbind k o t c ttl rrset inc exp s scratch Hv Hu Hs dalg s' seen seen' Hseen W W' R R' Hne.
     pose proof (validator_rebuilds_signer_input _ _ _ _ _ _ _ _ _ _ Hv Hu Hs seen Hseen) as Hreb.
     unfold verify_signed_data.
-    destruct (verify_checks_algorithm_match && negb (s_alg s' =? dalg)); [discriminate|].
+    destruct (alg_mismatch (s_alg s') dalg); [discriminate|].
     destruct (verify pk (signed_data s' seen') (sign sk scratch)) eqn:E; [|discriminate].
     exfalso. apply Hbind in E. rewrite <- Hreb in E.
     exact (alteration_changes_input _ _ _ _ W' W R' R Hne E).
@@ -75,7 +75,7 @@ Section Crypto.
     intros Huniq k o t c ttl rrset inc exp s scratch Hv Hu Hs seen sg' Hseen Hne.
     rewrite (validator_rebuilds_signer_input _ _ _ _ _ _ _ _ _ _ Hv Hu Hs seen Hseen).
     unfold verify_signed_data.
-    destruct (verify_checks_algorithm_match && negb (s_alg s =? k_alg k)); [discriminate|].
+    destruct (alg_mismatch (s_alg s) (k_alg k)); [discriminate|].
     destruct (verify pk scratch sg') eqn:E; [|discriminate].
     apply Huniq in E. contradiction.
   Qed.
@@ -93,7 +93,7 @@ Section Crypto.
     intros Hkey k o t c ttl rrset inc exp s scratch Hv Hu Hs seen pk' dalg Hseen Hne.
     rewrite (validator_rebuilds_signer_input _ _ _ _ _ _ _ _ _ _ Hv Hu Hs seen Hseen).
     unfold verify_signed_data.
-    destruct (verify_checks_algorithm_match && negb (s_alg s =? dalg)); [discriminate|].
+    destruct (alg_mismatch (s_alg s) dalg); [discriminate|].
     destruct (verify pk' scratch (sign sk scratch)) eqn:E; [|discriminate].
     apply Hkey in E. contradiction.
   Qed.
@@ -102,7 +102,7 @@ Section Crypto.
   Lemma algorithm_mismatch_rejected s signature data dalg :
     s_alg s <> dalg -> verify_signed_data pk dalg s signature data = Err 1.
   Proof.
-    intros H. unfold verify_signed_data, verify_checks_algorithm_match.
+    intros H. unfold verify_signed_data, alg_mismatch, verify_checks_algorithm_match.
     destruct (N.eqb_spec (s_alg s) dalg); [contradiction|]. reflexivity.
   Qed.
 End Crypto.
